@@ -611,6 +611,10 @@ func TestVerifRace_C07_concurrent(t *testing.T) {
 			defer ps.Close()
 			j := vjds.NewJournal()
 			store := vjds.NewNamed(j, "providers")
+			// every second case: a datastore whose queries iterate live (keys as of the call, each value read when the
+			// iterator reaches it), so that the sweep can meet records refreshed after it started
+			store.LiveQuery = c.Idx%2 == 1
+			c.Set("datastore_query_iterates_live", store.LiveQuery)
 			nk, np := 3+r.Intn(6), 4+r.Intn(7)
 			keys := make([][]byte, nk)
 			for i := range keys {
